@@ -59,6 +59,9 @@ ASSUMPTIONS = [
     'branch beyond a shorter fork are treated like damaged headers for the restart clauses',
     'damage model: tip = whole-header overwrite only; all damaged positions strictly above the first header '
     'repair looks at (max(checkpoints)+1000, 999 without checkpoints); no damage inside check-pointed chunks and no fork below a checkpoint',
+    'the chain is judged modulo all-zero placeholders of check-pointed chunks that were not downloaded yet; while such a '
+    'placeholder exists only header-aligned cuts are injected (an unaligned size makes repair() start at the placeholder '
+    'and truncate the whole file: documented observation, switch UNALIGNED_CUT_WITH_PLACEHOLDER)',
 ]
 EXPECTED_PROBES = [
     'connect_call', 'valid_ext_stored', 'fork_stored', 'fork_shorter_stale_tail', 'invalid_offered',
@@ -68,15 +71,23 @@ EXPECTED_PROBES = [
     'cut_in_tip', 'cut_in_tip_1', 'cut_in_tip_2', 'cut_aligned', 'chunk_honest_stored', 'chunk_bad_rejected',
     'chunk_uncheckpointed_ignored', 'zero_filled_open', 'full_walk', 'mined_clamp_low', 'mined_clamp_high',
     'mined_neg_delta', 'mined_capped', 'mined_trunc_vs_floor', 'tip_on_repair_batch_edge', 'base_prefix_short',
+    'chunk_stored_below_top', 'reject_after_midfile_write', 'extend_after_midfile_write', 'empty_batch',
+    'sparse_start',
 ] + ['cut_enum_slice_%02d' % i for i in range(21)]   # every byte offset of the last three headers (336 = 21 x 16)
 
 HS = lc.HEADER_SIZE
+N1 = 1100            # chain length used by the families without a second checkpoint
 FIELDS = {'version': (0, 32), 'prev': (4, 256), 'merkle': (36, 256), 'claim': (68, 256),
           'time': (100, 32), 'bits': (104, 32), 'nonce': (108, 32)}
 BITS_VARIANTS = ['floor_div', 'no_clamp', 'no_cap', 'parent', 'max', 'mant_plus', 'mant_minus', 'sign_bit',
                  'time_shift', 'grand_parent_swap']
 SERVE_KINDS = ['honest', 'altered', 'truncated', 'trunc_bytes', 'extended', 'alt_valid', 'zeros', 'empty']
 ENABLE_STALE_FAMILY = True
+# Observation kept out of the oracle's domain (see ASSUMPTIONS): with a not yet downloaded check-pointed chunk
+# (all-zero placeholder) in the file, a cut that leaves the size unaligned makes open() run repair() from
+# height 0, which finds the placeholder instead of the genesis header and truncates the WHOLE file. Set to
+# True to let the check report it (C07.reopen_not_prefix, fault=cut).
+UNALIGNED_CUT_WITH_PLACEHOLDER = False
 
 
 # ---------------------------------------------------------------------------------------------------
@@ -163,7 +174,49 @@ def _fault(r, cp):
 
 def _fetch(r, where, serve=None):
     return {'op': 'fetch', 'h': where, 'serve': serve or r.choice(SERVE_KINDS), 'seed': r.getrandbits(32),
-            'via': r.choice(['ensure', 'ensure', 'get'])}
+            'via': r.choice(['ensure', 'ensure', 'get', 'get_dict'])}
+
+
+def _nothing_stored(r, big):
+    """One connect call that must store nothing: first header broken / beyond the tip / empty / altered re-send."""
+    k = r.choice(['reject_first', 'reject_first', 'beyond', 'empty', 'resend_altered'])
+    if k == 'reject_first':
+        op = _batch(r, big, bad=True, nmax=4)
+        op['bad']['idx'] = 0
+        op['split'] = []
+        return op
+    if k == 'beyond':
+        return {'op': 'beyond', 'gap': r.choice([1, 1, 2, 1000]), 'n': r.randrange(1, 3), 'deltas': _deltas(r, 2),
+                'seed': r.getrandbits(48)}
+    if k == 'empty':
+        return {'op': 'empty', 'where': r.choice(['tip', 'tip', 'lower', 'beyond', 'zero'])}
+    n = r.randrange(1, 4)
+    f = r.choice(list(FIELDS))
+    return {'op': 'resend', 'to_tip': True, 'frac': 0.0, 'zero': False, 'n': n, 'split': [],
+            'alter': {'idx': 0, 'field': f, 'bit': r.randrange(FIELDS[f][1])}}
+
+
+def _pos_probe(r, big, top):
+    """History shape: something moves the position of the shared file object (an on-demand fetch of a
+    check-pointed chunk below the top of the stored data, reads through get/get_raw_header at chunk-aligned
+    and unaligned heights), then a connect that stores nothing and/or one that stores a valid extension,
+    then (often) a restart."""
+    out = []
+    if r.random() < 0.3:
+        out.append(_batch(r, big, nmax=3))
+    for _ in range(r.choice([1, 1, 2])):
+        h = r.choice([0, 1, 5, 499, 500, 999, 1000, 1001, 1500, 1999, r.randrange(top), r.randrange(top)])
+        if h >= top:
+            h = h % top
+        out.append(_fetch(r, ['abs', h], 'honest' if r.random() < 0.85 else None))
+    order = r.choice(['reject', 'reject', 'reject_ext', 'ext', 'ext_reject', 'reject_reject'])
+    for what in order.split('_'):
+        out.append(_nothing_stored(r, big) if what == 'reject' else _batch(r, big, nmax=3))
+    if r.random() < 0.6:
+        out.append({'op': 'reopen', 'faults': []})
+        if r.random() < 0.4:
+            out.append(_nothing_stored(r, big))
+    return out
 
 
 def gen(run_seed, tier):
@@ -172,7 +225,7 @@ def gen(run_seed, tier):
     fams = ['connect', 'reopen', 'cut_enum', 'checkpoint', 'stale']
     w = [38, 30, 8, 17, 7 if ENABLE_STALE_FAMILY else 0]
     fam = r.choices(fams, w)[0]
-    sc = {'family': fam, 'cp': False, 'init': 'file', 'base_len': lc.BASE_LEN,
+    sc = {'family': fam, 'cp': False, 'init': 'file', 'base_len': N1,
           'full_walk': r.random() < 0.12, 'server_delay': r.choice([0.0, 0.01, 0.3]), 'ops': []}
     ops = sc['ops']
 
@@ -195,8 +248,8 @@ def gen(run_seed, tier):
         else:
             sc['base_len'] = r.choice([1100] * 6 + [1, 2, 3, 5, 37, 500, 999, 1000, 1001, 1036, 1099])
         for _ in range(r.randrange(3, 13 if big else 10)):
-            k = r.choices(['ext', 'ext_bad', 'fork', 'fork_bad', 'beyond', 'resend', 'reopen', 'fetch', 'feed'],
-                          [26, 34, 10, 7, 6, 6, 4, 4, 3])[0]
+            k = r.choices(['ext', 'ext_bad', 'fork', 'fork_bad', 'beyond', 'resend', 'reopen', 'fetch', 'feed', 'empty'],
+                          [26, 34, 10, 7, 6, 6, 4, 4, 3, 2])[0]
             if k in ('ext', 'ext_bad', 'fork', 'fork_bad'):
                 ops.append(_batch(r, big, fork=k.startswith('fork'), bad=k.endswith('bad')))
             elif k == 'beyond':
@@ -210,6 +263,8 @@ def gen(run_seed, tier):
                                       if r.random() < 0.5 else None), 'split': _split(r, n)})
             elif k == 'reopen':
                 ops.append({'op': 'reopen', 'faults': []})
+            elif k == 'empty':
+                ops.append({'op': 'empty', 'where': r.choice(['tip', 'lower', 'beyond', 'zero'])})
             elif k == 'fetch':
                 ops.append(_fetch(r, ['beyond', r.choice([0, 1, 50, 1000, 5000])],
                                   r.choice(['zeros', 'altered', 'honest', 'alt_valid'])))
@@ -241,26 +296,34 @@ def gen(run_seed, tier):
             ops.append({'op': 'reopen', 'faults': [{'kind': 'cut', 'back': b}], 'enum': True})
             ops.append({'op': 'feed', 'n': 4, 'split': []})
     elif fam == 'checkpoint':
-        sc['cp'] = True
-        if r.random() < 0.55:
+        cp = sc['cp'] = r.choice([1, 2, 2])
+        top = 1000 * cp
+        init = r.choices(['none', 'sparse', 'file'], [40, 30 if cp == 2 else 0, 30])[0]
+        if init == 'none':
             sc['init'] = 'none'
             sc['base_len'] = 0
-            for _ in range(r.randrange(1, 4)):
-                ops.append(_fetch(r, ['in', round(r.random(), 4)]))
-            if r.random() < 0.8:
-                ops.append(_fetch(r, ['in', round(r.random(), 4)], 'honest'))
-            feed_ops(r.choice([1001, 1040, 1100]), first=1000)
+            for _ in range(r.randrange(0, 3)):
+                ops.append(_fetch(r, ['abs', r.randrange(top)]))
+            if r.random() < 0.5:
+                ops.append(_fetch(r, ['abs', r.randrange(top)], 'honest'))
+            feed_ops(top + r.choice([1, 40, 100]), first=top)
+        elif init == 'sparse':
+            # the top chunk was fetched and headers connected above it; chunk 0 is still a placeholder
+            sc['init'] = 'sparse'
+            sc['base_len'] = r.choice([2000, 2001, 2037, 2100, 2100])
         else:
-            sc['base_len'] = r.choice([1000, 1001, 1037, 1100])
-        for _ in range(r.randrange(2, 7)):
+            sc['base_len'] = top + r.choice([0, 1, 37, 100])
+        if r.random() < 0.7:
+            ops.extend(_pos_probe(r, big, top))
+        for _ in range(r.randrange(1, 6)):
             k = r.choices(['ext', 'ext_bad', 'fork', 'fetch_beyond', 'fetch_in', 'reopen_clean', 'reopen_fault',
-                           'feed', 'beyond'], [20, 25, 8, 10, 8, 6, 12, 6, 5])[0]
+                           'feed', 'beyond', 'pos_probe', 'empty'], [18, 22, 8, 8, 10, 6, 10, 6, 5, 12, 3])[0]
             if k in ('ext', 'ext_bad', 'fork'):
                 ops.append(_batch(r, big, fork=(k == 'fork') and r.choice([1, 2, 3, 5]), bad=(k == 'ext_bad')))
             elif k == 'fetch_beyond':
                 ops.append(_fetch(r, ['beyond', r.choice([0, 1, 50, 1000])]))
             elif k == 'fetch_in':
-                ops.append(_fetch(r, ['in', round(r.random(), 4)]))
+                ops.append(_fetch(r, ['abs', r.randrange(top)]))
             elif k == 'reopen_clean':
                 ops.append({'op': 'reopen', 'faults': []})
             elif k == 'reopen_fault':
@@ -268,6 +331,10 @@ def gen(run_seed, tier):
             elif k == 'beyond':
                 ops.append({'op': 'beyond', 'gap': r.choice([1, 2, 1000]), 'n': 2, 'deltas': _deltas(r, 2),
                             'seed': r.getrandbits(48), 'serve': r.choice(['honest', 'zeros'])})
+            elif k == 'pos_probe':
+                ops.extend(_pos_probe(r, big, top))
+            elif k == 'empty':
+                ops.append({'op': 'empty', 'where': r.choice(['tip', 'lower', 'beyond', 'zero'])})
             else:
                 ops.append({'op': 'feed', 'n': r.choice([1, 3, 36, 100]), 'split': []})
     else:  # stale: a shorter fork, then headers that link to the stale tail of the old branch
@@ -403,7 +470,9 @@ class _Exec:
     def __init__(self, run, sc, Headers, base, chain, tmp):
         self.run, self.sc, self.base, self.chain = run, sc, base, chain
         self.path = os.path.join(tmp, 'headers')
-        self.cps = {0: lc.chunk_digest(base[:1000 * HS])} if sc.get('cp') else {}
+        ncp = int(sc.get('cp') or 0)          # number of check-pointed 1000-header chunks (0, 1 or 2)
+        self.cps = {c * 1000: lc.chunk_digest(base[c * 1000 * HS:(c + 1) * 1000 * HS]) for c in range(min(ncp, 2))}
+        self.top = 1000 * len(self.cps)         # first height above the check-pointed chunks
         self.rs = max(list(self.cps) or [-1]) + 1000      # first header repair looks at on an aligned file
         cps = self.cps
 
@@ -420,10 +489,22 @@ class _Exec:
         self.logical = 0        # how far the stored bytes validate (>= end of the most recently connected batch)
         self.getter_on = bool(sc.get('cp'))
         self.stop = False
+        self.midfile = False     # the last writer left the file position below the end of the stored data
 
     # ---- helpers ---------------------------------------------------------------------------------
+    def filled(self, buf):
+        """`buf` with every all-zero placeholder of a not yet downloaded check-pointed chunk replaced by the
+        chunk it stands for: the chain is judged modulo these holes (a wallet keeps them until the chunk is
+        fetched on demand); anything else found in such a region is judged as it is."""
+        for s0 in self.cps:
+            a, b = s0 * HS, (s0 + 1000) * HS
+            if len(buf) >= b and buf[a:b] != self.base[a:b] and buf[a:b] == bytes(b - a):
+                buf = buf[:a] + self.base[a:b] + buf[b:]
+        return buf
+
     def fi(self, buf, hi=None):
         """first invalid height of buf[0:hi] (base-chain prefix is trusted: validated once per process)."""
+        buf = self.filled(buf)
         hi = len(buf) // HS if hi is None else min(hi, len(buf) // HS)
         w = min(lc.common_prefix_headers(buf, self.base), hi)
         return self.chain.first_invalid(buf, w, hi)
@@ -599,11 +680,14 @@ class _Exec:
                     break
                 k += 1
                 grand, parent = parent, cur
+            if n == 0:
+                rule = 'empty'
             if start > logical:
                 # parent is a stale header of an old branch (beyond the end of the most recently
                 # connected batch): the batch does not extend the chain
                 k, rule = 0, 'stale'
         fully = rule is None and n > 0
+        was_midfile = self.midfile
         r = ret if exc is None else 0
         site = {'rule': rule or 'valid', 'bad': label}
         run.ev('connect', start, n, ret if exc is None else type(exc).__name__, rule, k, _short(after))
@@ -631,6 +715,14 @@ class _Exec:
             return self.viol('C07.checkpoint', f'chunk served as {bk} during connect was stored although its hash '
                              f'is not the configured checkpoint', serve=bk, what='stored_mismatching')
         # -- stored whole / nothing beyond the first invalid header ----------------------------------------
+        if after[:start * HS] != eb[:start * HS]:
+            d = lc.common_prefix_headers(after, eb)
+            return self.viol('C07.valid_headers_dropped', f'connect({start}, {n} headers, {label}; first broken rule '
+                             f'{rule}, returned {ret!r}) changed the chain BELOW the batch: {len(eb) // HS} headers '
+                             f'were stored before the call, {len(after) // HS} after it, first difference at height '
+                             f'{d}' + (' (the previous writer, an accepted on-demand chunk, had left the file '
+                                       'position in the middle of the file)' if was_midfile else ''),
+                             when='call', midfile=was_midfile, **site)
         if fully:
             if after[start * HS:(start + n) * HS] != batch:
                 return self.viol('C07.valid_batch_not_stored', f'fully valid batch of {n} at {start} (tip {plen}, '
@@ -663,10 +755,10 @@ class _Exec:
         extent = logical
         if eb != after or end > logical:
             w = max(0, min(logical, lc.common_prefix_headers(eb, after), start if r > 0 else logical) - 3)
-            cpb = lc.common_prefix_headers(after, self.base)
+            cpb = lc.common_prefix_headers(self.filled(after), self.base)
             if cpb > w:
                 w = cpb                     # base-chain prefix: validated once per process
-            extent, bad_rule = self.chain.first_invalid(after, w, len(after) // HS)
+            extent, bad_rule = self.chain.first_invalid(self.filled(after), w, len(after) // HS)
             if extent < end:
                 return self.viol('C07.stored_invalid', f'after connect({start}, {n} headers, {label}) -> {ret!r} '
                                  f'the stored header at height {extent} breaks rule {bad_rule} (batch end {end})',
@@ -683,8 +775,20 @@ class _Exec:
             for hh in (1, 2):
                 if start <= hh < start + n:
                     run.probes[f'connect_height_{hh}'] += 1
+        if was_midfile:
+            run.probes['extend_after_midfile_write' if r > 0 else 'reject_after_midfile_write'] += 1
+        if n == 0:
+            run.probes['empty_batch'] += 1
+        self.midfile = False if r > 0 else (self.midfile or self.note_midfile(accepted, after))
         self.image, self.logical = after, new_logical
         return None
+
+    def note_midfile(self, accepted, after):
+        """an accepted chunk written below the top of the stored data leaves the file position mid-file"""
+        mid = any(s0 + 1000 < len(after) // HS for s0, _k in accepted)
+        if mid:
+            self.run.probes['chunk_stored_below_top'] += 1
+        return mid
 
     async def connect_pieces(self, start, hdrs, split, label):
         cuts = sorted({c for c in (split or []) if isinstance(c, int) and 0 < c < len(hdrs)})
@@ -707,13 +811,13 @@ class _Exec:
         if self.cps:
             # a check-pointed chunk is immutable by design (no reorganisation below a checkpoint):
             # own headers are only mined above it
-            if self.logical < 1000:
+            if self.logical < self.top:
                 self.run.probes['op_skipped'] += 1
                 return
-            at = min(at, self.logical - 1000)
+            at = min(at, self.logical - self.top)
         start = self.logical - at
         n = max(1, int(op.get('n', 1)))
-        hdrs, label = self.build_batch(self.image, start, n, op.get('deltas') or [150], op.get('seed', 0),
+        hdrs, label = self.build_batch(self.filled(self.image), start, n, op.get('deltas') or [150], op.get('seed', 0),
                                        op.get('bad'))
         if at:
             self.run.faults['fork'] += 1
@@ -723,7 +827,8 @@ class _Exec:
         plen = len(self.h)
         n = max(1, int(op.get('n', 1)))
         if self.logical >= 1:
-            hdrs, _ = self.build_batch(self.image, self.logical, n, op.get('deltas') or [150], op.get('seed', 0), None)
+            hdrs, _ = self.build_batch(self.filled(self.image), self.logical, n, op.get('deltas') or [150],
+                                       op.get('seed', 0), None)
         else:
             hdrs = [self.base[i * HS:(i + 1) * HS] for i in range(n)]
         self.run.faults['beyond_tip'] += 1
@@ -757,7 +862,7 @@ class _Exec:
 
     async def op_feed(self, op):
         lg = self.logical
-        if lg >= lc.BASE_LEN or self.image[:lg * HS] != self.base[:lg * HS]:
+        if lg >= lc.BASE_LEN or self.filled(self.image)[:lg * HS] != self.base[:lg * HS]:
             self.run.probes['op_skipped'] += 1
             return
         n = max(1, min(int(op.get('n', 1)), lc.BASE_LEN - lg))
@@ -773,6 +878,12 @@ class _Exec:
             self.run.faults['bad_field'] += 1
         self.run.probes['feed_through_connect'] += 1
         await self.do_connect(lg, batch, label)
+
+    async def op_empty(self, op):
+        plen = len(self.h)
+        where = op.get('where', 'tip')
+        start = {'tip': plen, 'lower': max(0, self.logical - 3), 'beyond': plen + 5, 'zero': 0}.get(where, plen)
+        await self.do_connect(start, b'', 'empty:' + str(where))
 
     async def op_stale_attach(self, op):
         plen = len(self.h)
@@ -791,7 +902,8 @@ class _Exec:
             self.getter_on = True
             h.chunk_getter = self.server.get
         spec = op.get('h') or ['in', 0.5]
-        height = int(spec[1] * 1000) if spec[0] == 'in' else len(h) + int(spec[1])
+        height = {'in': lambda: int(spec[1] * 1000), 'abs': lambda: int(spec[1])}.get(
+            spec[0], lambda: len(h) + int(spec[1]))()
         serve = op.get('serve', 'honest')
         self.server.next = (serve, op.get('seed', 0))
         before = h.io.getvalue()
@@ -800,6 +912,8 @@ class _Exec:
         try:
             if op.get('via') == 'get':
                 await h.get_raw_header(height)
+            elif op.get('via') == 'get_dict':
+                await h.get(height)
             else:
                 await h.ensure_chunk_at(height)
         except Exception as e:  # noqa
@@ -823,6 +937,7 @@ class _Exec:
         self.image = after
         if accepted:
             self.logical = self.fi(after)[0]
+            self.midfile = self.note_midfile(accepted, after) or self.midfile
         return None
 
     # ---- faults between close() and open() --------------------------------------------------------------
@@ -878,7 +993,7 @@ class _Exec:
                 run.faults['bitflip'] += 1
                 kinds.append('bitflip_prev' if 32 <= bit < 288 else 'bitflip')
             elif kind == 'cut':
-                lo = 1000 * HS if self.cps else 0
+                lo = self.top * HS
                 if 'back' in ft:
                     c = len(F) - int(ft['back'])
                 else:
@@ -887,6 +1002,9 @@ class _Exec:
                     cut_at = c if cut_at is None else min(cut_at, c)
                 else:
                     run.probes['fault_skipped'] += 1
+        if cut_at is not None and cut_at % HS and not UNALIGNED_CUT_WITH_PLACEHOLDER and self.filled(F) != F:
+            cut_at -= cut_at % HS
+            run.probes['cut_aligned_because_placeholder'] += 1
         if cut_at is not None:
             new_tip = cut_at // HS - 1
             for p, byte, mask in flips:
@@ -931,9 +1049,10 @@ class _Exec:
             return self.viol('C07.reopen_not_prefix', f'len()={L2} but only {len(io)} bytes are loaded', fault=fault,
                              tip_edge=edge)
         loaded = io[:L2 * HS]
-        if self.cps and not Fp and L2 == 1000 and loaded == bytes(1000 * HS):
+        self.midfile = False
+        if self.cps and not Fp and L2 == self.top and loaded == bytes(self.top * HS):
             run.probes['zero_filled_open'] += 1       # empty file + checkpoint: placeholder for the chunk
-            self.image, self.logical = io, 0
+            self.image, self.logical = io, self.fi(io)[0]
             run.ev('open', L2, 'zero-filled')
             return None
         aligned = len(Fp) % HS == 0
@@ -969,7 +1088,7 @@ class _Exec:
             run.probes['reopen_clean_identical'] += 1
         if L2 < Wc:
             run.probes['reopen_truncated'] += 1
-        if L2 < lc.BASE_LEN and L2 == fi_L:
+        if L2 < N1 and L2 == fi_L:
             run.probes['base_prefix_short'] += 1
         self.image, self.logical = io, fi_L
         return None
@@ -987,7 +1106,8 @@ class _Exec:
                              exc=type(e).__name__, fault='+'.join(sorted(set(ctx['kinds']))))
         self.after_open(ctx)
         handlers = {'batch': self.op_batch, 'beyond': self.op_beyond, 'resend': self.op_resend,
-                    'feed': self.op_feed, 'fetch': self.op_fetch, 'stale_attach': self.op_stale_attach}
+                    'feed': self.op_feed, 'fetch': self.op_fetch, 'stale_attach': self.op_stale_attach,
+                    'empty': self.op_empty}
         for op in ops:
             if self.stop:
                 return
@@ -1005,9 +1125,12 @@ class _Exec:
     def go(self):
         run, sc = self.run, self.sc
         initial = b''
-        if sc.get('init', 'file') == 'file':
-            n = max(0, min(int(sc.get('base_len', lc.BASE_LEN)), lc.BASE_LEN))
+        if sc.get('init', 'file') in ('file', 'sparse'):
+            n = max(0, min(int(sc.get('base_len', N1)), lc.BASE_LEN))
             initial = self.base[:n * HS]
+            if sc.get('init') == 'sparse' and len(self.cps) == 2 and n >= 2000:
+                initial = bytes(1000 * HS) + initial[1000 * HS:]      # chunk 0 not downloaded yet
+                self.run.probes['sparse_start'] += 1
             with open(self.path, 'wb') as f:
                 f.write(initial)
         segs, reopens = [[]], []
@@ -1034,7 +1157,7 @@ class _Exec:
                 ctx = self.apply_faults(reopens[i], self.image, ctx['Fp'])
         if sc.get('full_walk') and not run.violations:
             run.probes['full_walk'] += 1
-            bad_h, rule = self.chain.first_invalid(self.image, 0, self.logical)
+            bad_h, rule = self.chain.first_invalid(self.filled(self.image), 0, self.logical)
             if bad_h < self.logical:
                 self.viol('C07.stored_invalid', f'final walk from genesis: header {bad_h} breaks rule {rule} '
                           f'(chain end {self.logical})', rule='full_walk', bad='none', stored_rule=rule)
